@@ -58,11 +58,19 @@ def positive_points(n):
     return [F(x) for x in (2, 3, 5, 7, 11, 13, 17, 19, 23)[:n]]
 
 
+def int_array_curve(U, P):
+    """Fraction knots, control points as one integer-dtype numpy array"""
+    return lib.Curve([F(k) for k in U], lib.np.array([[int(c) for c in pt] if isinstance(pt, tuple) else int(pt) for pt in P], dtype="int64"))
+
+
 def check_binary(res, op, UA, PA, WA, UB, PB, WB, tag):
     """A op B in lockstep with the reference"""
     res.transition()
     pa, pb = rb.degree_of(UA), rb.degree_of(UB)
-    A, B = lib.mk_curve(UA, PA, WA), lib.mk_curve(UB, PB, WB)
+    if tag.get("data") == "int_arrays":
+        A, B = int_array_curve(UA, PA), int_array_curve(UB, PB)
+    else:
+        A, B = lib.mk_curve(UA, PA, WA), lib.mk_curve(UB, PB, WB)
     sa, sb = lib.snap_curve(A), lib.snap_curve(B)
     fn = {"+": lambda: A + B, "-": lambda: A - B, "*": lambda: A * B, "/": lambda: A / B, "@": lambda: A @ B}[op]
     o = lib.outcome(fn)
@@ -136,6 +144,12 @@ def run_case(case, res):
             check_binary(res, "+", UA, PA2, None, UB, PB2, None, dict(data="2d"))
             check_binary(res, "@", UA, PA2, None, UB, PB2, None, dict(data="2d"))
             check_binary(res, "*", UA, PA, None, UB, PB2, None, dict(data="scalar_times_2d"))
+            # integer-dtype numpy arrays as control points (no Fractions in the data)
+            for op in ("+", "@", "*"):
+                if op == "*":
+                    check_binary(res, op, UA, PA, None, UB, PB, None, dict(data="int_arrays"))
+                else:
+                    check_binary(res, op, UA, PA2, None, UB, PB2, None, dict(data="int_arrays"))
             check_binary(res, "*", UA, PA2, None, UB, PB, None, dict(data="2d_times_scalar"))
             check_binary(res, "/", UA, PA2, None, UB, PBpos, None, dict(data="2d_over_scalar"))
         # rational operands
